@@ -16,6 +16,11 @@ import (
 //	             the two rules are identical, hence D(self) == D(o)   [C11 ident per kind]
 //	Merge(o):    requires same dynamic type; result ==> D'(self) == D(self) || D(o), every
 //	             other rule keeps its D; !result ==> nothing changes   [C10 merge/sound per kind]
+//
+// The rules' fields are abstracted by the heap version HV: only a successful Merge writes a
+// rule, and it bumps HV; Compare and Merge answer as functions cmprule / mergeres of
+// (HV, receiver, argument), which is what lets the contracts state "a pass that removes
+// nothing changes nothing" and "merging a stable list changes nothing" (idempotence).
 func (ex *Exec) RulesMerge(fn *ssa.Function, fc *contract.Func) *NotGenerated {
 	rts := []RuleType{}
 	func() {
@@ -68,7 +73,8 @@ func (ex *Exec) RulesMerge(fn *ssa.Function, fc *contract.Func) *NotGenerated {
 					smt.Eq(smt.Sel(d, i.Ref), smt.Sel(d, o.Ref))))
 				return ret1(st, Int{res}), true
 			}
-			b := ex.Ctx.Fresh("merged", "Bool")
+			// the answer of Merge is a function of the two rules and of the heap they live in
+			b := smt.App(ex.Ctx.Declare("mergeres", []string{"Int", "Ref", "Ref"}, "Bool"), hv, i.Ref, o.Ref)
 			st.Ghost["D"] = smt.Ite(b, smt.Sto(d, i.Ref, smt.Or(smt.Sel(d, i.Ref), smt.Sel(d, o.Ref))), d)
 			st.Ghost["HV"] = smt.Ite(b, smt.Add(hv, "1"), hv)
 			return ret1(st, Bool{b}), true
